@@ -65,6 +65,8 @@ const (
 	fZawgyiMorx       = "C05-zawgyi-morx-dumber-shaper"
 	fAttachDepth      = "C05-attachment-chain-depth-limit"
 	fNesting          = "C05-lookup-nesting-level"
+	fDeviceDelta      = "C05-device-delta-scale-truncation"
+	fTrakRounding     = "C05-trak-tracking-rounding"
 )
 
 // unconditional (skew / loader / unspecified) classes
@@ -651,6 +653,21 @@ func triage(fe *fontEntry, c *Case, got portResult, want refResult) class {
 	// un-accumulated (in-house c4e48b08...ttf, U+0645 x 69: y offsets differ from the 65th glyph of
 	// the chain on). Precondition: more than 64 glyphs, a GPOS with cursive or mark attachment
 	// lookups; only offsets may differ.
+	// finding: DeviceHinting.GetDelta computes pixels * (scale / ppem), dividing first, where
+	// upstream computes pixels * scale / ppem: up to ppem-1 units of the scale are lost per pixel
+	// (generated font gpos-rules seed 836445728, "b", ppem 9: x offset -499 vs -500).
+	// Precondition: a ppem is set and the font's GPOS/GDEF carry hinting Device tables; only
+	// advances and offsets may differ.
+	if (c.XPpem != 0 || c.YPpem != 0) && fe.device && ev.Known(fDeviceDelta) {
+		add(fDeviceDelta, fAdvance|fOffset)
+	}
+	// finding: applyTrak truncates the interpolated tracking value (int(x)) where upstream rounds
+	// it half up (roundf = floorf(x + .5f)): one unit of difference in advance and offset
+	// (TestTRAKOne.ttf, ptem 24: 470 vs 469). Precondition: a point size is set and the font has
+	// a trak table.
+	if c.Ptem != 0 && (len(fe.face.Trak.Horiz.SizeTable) > 0 || len(fe.face.Trak.Vert.SizeTable) > 0) && ev.Known(fTrakRounding) {
+		add(fTrakRounding, fAdvance|fOffset)
+	}
 	if len(port) > 64 && !sameOn(port, ref, fOffset) && hasAttachmentLookups(fe) && ev.Known(fAttachDepth) {
 		add(fAttachDepth, fOffset)
 	}
@@ -933,6 +950,18 @@ func synthNestsDeeperThan6(fe *fontEntry) bool {
 }
 
 func triageFlags(fe *fontEntry, c *Case, got portResult, want refResult) string {
+	// unspecified: the same feature tag given twice with different ranges (one ranged, one global):
+	// how the two settings combine is not documented; the glyphs agree, the port flags
+	// unsafe-to-break where libharfbuzz 6.0.0 flags unsafe-to-concat only (generated font
+	// gsub-rules seed 916410494, "aaa", clig=0 on [1,end) then clig=1 global). The port's flags are
+	// the stronger ones. Precondition: two user features share a tag.
+	for i := range c.Features {
+		for j := i + 1; j < len(c.Features); j++ {
+			if c.Features[i].Tag == c.Features[j].Tag {
+				return "unspecified:duplicate-user-feature-tag-flags"
+			}
+		}
+	}
 	if synthNestsDeeperThan6(fe) && ev.Known(fNesting) {
 		return fNesting
 	}
